@@ -106,6 +106,8 @@ type Contract struct {
 	Fresh    bool // result freshly allocated
 	HasCallback bool
 	Callback [2]int // ext contract: argument index of the function value and of the slice whose elements it is called with (-1: none)
+	Measure  *Clause // termination measure of a recursive function: an integer expression over the entry state
+	Rank     int     // second (lexicographic) component of the measure: a constant per function
 	Linear   bool // every AST node obtained from a sub-parser or allocated here ends up in the result (no parsed node is dropped)
 	Sites    []*SiteAssert
 }
@@ -153,7 +155,7 @@ func NewSpec() *Spec {
 }
 
 var clauseKeywords = map[string]bool{"func": true, "tags": true, "requires": true, "ensures": true, "assigns": true,
-	"loop": true, "invariant": true, "decreases": true, "bound": true, "ghost": true, "axiom": true, "smt": true,
+	"loop": true, "invariant": true, "decreases": true, "measure": true, "rank": true, "bound": true, "ghost": true, "axiom": true, "smt": true,
 	"trusted": true, "pure": true, "maypanic": true, "package": true, "typeinv": true, "lemma": true, "note": true,
 	"nofloat": true, "fresh": true, "linear": true, "callback": true, "modifies": true, "end": true, "defines": true, "at": true}
 
@@ -248,6 +250,23 @@ func (sp *Spec) ReadSpecFile(path, defaultPkg string) error {
 			cur.Fresh = true
 		case "linear":
 			cur.Linear = true
+		case "measure":
+			// measure <expr>: at every call inside its recursive cycle the callee's measure is lower than the
+			// caller's at entry, or equal with a lower rank (C09: the recursion terminates)
+			if cur == nil {
+				return fmt.Errorf("%s: measure outside func", rc.pos)
+			}
+			c, err := parse()
+			if err != nil {
+				return err
+			}
+			cur.Measure = c
+		case "rank":
+			n, err := strconv.Atoi(strings.TrimSpace(rc.rest))
+			if cur == nil || err != nil {
+				return fmt.Errorf("%s: expected `rank <n>` inside func", rc.pos)
+			}
+			cur.Rank = n
 		case "callback":
 			// callback <i> pairs <j>: the function passed as argument i is called (any number of times) with two elements of
 			// the slice passed as argument j, and with every element at least once when the slice has two or more elements
